@@ -520,7 +520,7 @@ class Run(_pr.PhaseRun):
     listed, and without --distrust-genotypes there is none."""
 
     def filter_shapes(self, shapes):
-        return [s for s in shapes if s["old"] is None or s["distrust"]]
+        return [s for s in shapes if not s.get("ped") and (s["old"] is None or s["distrust"])]
 
     def judge(self, e, sc, shape, out, lists, info):
         txt = lists.get("gtchanges.tsv")
